@@ -15,6 +15,11 @@
   The two `…_counterexample` facts record what the code does after a REJECTED partial
   update (allowed by the property, reported as an observation): the KKT copy / the cache
   are left behind the data.
+  * round 7 (`full_*`, at the end): the same operations on the solver object of the WHOLE-SOLVER
+    model (`ClarabelModel/SolverUpdate.lean`), hypotheses on the user's input only
+    (`full_kkt_inputs_from_user_input`), the refinement of the state model above
+    (`full_update_refines_state_model`), and the property itself modulo the frozen equilibration:
+    `full_update_then_solve_eq_rebuilt`; rejected updates: `full_rejected_update_post_state`.
 -/
 import ClarabelProofs.Lemmas.Update
 import ClarabelProofs.Lemmas.UpdateAbs
@@ -24,6 +29,7 @@ import ClarabelProofs.Lemmas.UpdateOwnMaps
 import ClarabelProofs.Lemmas.UpdateFreshEquiv
 import ClarabelProofs.Lemmas.UpdateGuard
 import ClarabelProofs.Lemmas.UpdateReject
+import ClarabelProofs.Lemmas.UpdateSolverFinal
 import Mathlib.Tactic.IntervalCases
 
 namespace Clarabel.C08
@@ -913,5 +919,341 @@ example : ∃ d, ProblemData.new (⟨1, 1, #[0, 0], #[], #[]⟩ : Csc ℝ) #[1] 
   exact ⟨d, hnew⟩
 
 end examples_round3
+
+/-! ### round 7: the hypotheses on the user's input only, and the composition on the WHOLE-SOLVER model
+
+  `ClarabelModel/SolverUpdate.lean` models `update_P / update_q / update_A / update_b / update_data` on
+  the solver object of the whole-solver model (`Solver α`: internal data with equilibration and norm
+  caches, `DirectLDLKKTSolver` with its KKT matrix, maps and QDLDL's permuted copy, iterate, work
+  vectors, `info`, `solution`) and histories `Solver.runU` of updates interleaved with `solve()`; channel
+  `upd.solve` compares it with a real `DefaultSolver` bit for bit (every `Result`, the whole trajectory
+  of every solve, the final internal state).  Lemmas: `Lemmas/UpdateSolver*.lean`, `UpdateAsmValues`,
+  `UpdateQdldlValues`, `UpdateNormTransparent`. -/
+
+section whole_solver
+open Clarabel.Solver
+open Clarabel.Lemmas.KktSpec (KktInputs)
+variable [Add α] [Sub α] [Mul α] [Div α] [Neg α] [OfNat α 0] [OfNat α 1] [OfNat α 2]
+  [OfNat α 100] [OfNat α 1000] [LT α] [DecidableLT α] [LE α] [DecidableLE α] [BEq α] [FloatLike α]
+
+/-- [S] **`KktInputs` follows from what `DefaultSolver::new` establishes.**  For well-formed USER input
+(`InputOK`: `P`, `A` canonical CSC — `check_format` passes —, `P` square, fitting dimensions, `Σ nvars =
+m`) the internal `P̂` (upper triangle after `to_triu`), `Â` (after presolve) and the cone objects of the
+solver object `DefaultSolver::new` returns satisfy C11's `KktInputs`, and its linear-solver object IS
+`DirectLDLKKTSolver::new` of them: the hypotheses of `own_maps_ok`, `kkt_in_sync_own`,
+`invariants_own`. -/
+theorem full_kkt_inputs_from_user_input {P : Csc α} {q : Array α} {A : Csc α} {b : Array α}
+    {cones : List (ConeT α)} {st : Solver.Settings α} {perm : Array Nat} (hin : InputOK P q A b cones)
+    {S : Solver α} (h : Solver.new P q A b cones st perm = .ok S) :
+    KktInputs S.st.data.P S.st.data.A (S.st.cones.map ConeSt.kktSpec) ∧
+      KktSolver.new S.st.data.P S.st.data.A S.st.cones S.st.data.m S.st.data.n st.lin perm
+        = .ok S.st.kktsystem.kktsolver :=
+  ⟨(solverNew_kktInputs hin h).1, (solverNew_kktInputs hin h).2.1⟩
+
+/-- [S] **`own_maps_ok` / `invariants_own` with hypotheses on the user's input only**: for the object
+`DefaultSolver::new` returns on well-formed input, `MapsOK` and `KktSync` hold for its own maps, and
+after every history of the C08 state model in which each operation is accepted or in whole form the
+three invariants `KktSync`, `MapsOK`, `NormCacheOK` hold (given valid norm caches at the start). -/
+theorem full_invariants_from_user_input {P : Csc α} {q : Array α} {A : Csc α} {b : Array α}
+    {cones : List (ConeT α)} {st : Solver.Settings α} {perm : Array Nat} (hin : InputOK P q A b cones)
+    {S : Solver α} (h : Solver.new P q A b cones st perm = .ok S) (dec : Bool) :
+    ((State.ofSolver S.st.data S.st.kktsystem.kktsolver dec).MapsOK ∧
+      (State.ofSolver S.st.data S.st.kktsystem.kktsolver dec).KktSync) ∧
+    ∀ (ops : List (Op α)), (State.ofSolver S.st.data S.st.kktsystem.kktsolver dec).NormCacheOK →
+      AcceptedRun (State.ofSolver S.st.data S.st.kktsystem.kktsolver dec) ops →
+      (run (State.ofSolver S.st.data S.st.kktsystem.kktsolver dec) ops).1.KktSync ∧
+      (run (State.ofSolver S.st.data S.st.kktsystem.kktsolver dec) ops).1.MapsOK ∧
+      (run (State.ofSolver S.st.data S.st.kktsystem.kktsolver dec) ops).1.NormCacheOK := by
+  obtain ⟨hki, hKs⟩ := full_kkt_inputs_from_user_input hin h
+  exact ⟨solverNew_own_maps hin h dec, fun ops hn ha =>
+    invariants_own S.st.data S.st.cones st.lin perm S.st.kktsystem.kktsolver dec hKs hki hn ops ha⟩
+
+/-- [S] **the whole-solver update model refines the C08 state model.**  For a history of update
+operations (every argument form, accepted or rejected; no `solve()`) on ANY solver object that
+returned, the C08 state model (`Update.run`, the subject of the theorems above) run from the view of the
+object (`Solver.view`: internal data, norm caches, guard, KKT matrix, maps, QDLDL's permuted copy) ends
+in the view of the final object, with the same list of `Result`s.  Hence the rejection tables,
+`refines_spec`, `data_eq_scaled_spec`, `state_equiv_rebuilt` apply to histories on the solver object. -/
+theorem full_update_refines_state_model {st : Solver.Settings α} (ops : List (UOp α)) (S S' : Solver α)
+    (outs : List (UOut α)) (hu : ∀ op ∈ ops, op.isUpdate = true)
+    (hrun : Solver.runU st S ops = .ok (S', outs)) :
+    run S.view (ops.map UOp.toOp) = (S'.view, outs.map UOut.toRes) :=
+  runU_refines ops S S' outs hu hrun
+
+/-- [S] **the invariant of a solver object along EVERY history** of updates (accepted or rejected, every
+argument form) and `solve()` calls from an object `DefaultSolver::new` built on well-formed input: the
+internal data differs from the constructed one in the VALUES of `P̂, q̂, Â, b̂` and the norm caches only —
+patterns, dimensions, cones, presolver record and the equilibration `(d, d⁻¹, e, e⁻¹, c)` are FROZEN
+(`DFrame`) —, every vector keeps its length and every cone object its shape (`Sh`), the linear-solver
+object keeps its structure and C12's history invariant, and both of its value copies hold, at the `P`
+and `A` positions, the matrices `pk`, `ak` of the last ACCEPTED `update_P` / `update_A` (`KSync`); if
+every update was accepted or in whole form these ARE the current `P̂`, `Â` (`Consistent`). -/
+theorem full_update_invariant {P : Csc α} {q : Array α} {A : Csc α} {b : Array α}
+    {cones : List (ConeT α)} {st : Solver.Settings α} {perm : Array Nat} (hin : InputOK P q A b cones)
+    (hn : 0 < P.n) (hperm : PermForU P q A b cones st perm) {S0 : Solver α}
+    (h : Solver.new P q A b cones st perm = .ok S0) {ops : List (UOp α)} {S' : Solver α}
+    {outs : List (UOut α)} (hrun : Solver.runU st S0 ops = .ok (S', outs)) :
+    ∃ pk ak, UInv st S0 S' pk ak ∧ (RunFine ops outs → Consistent S' pk ak) := by
+  have hb := base_of_new hin hn hperm h
+  obtain ⟨h0, c0⟩ := UInv.init hb
+  obtain ⟨pk, ak, h1, hc⟩ := runU_uinv hb ops S0 _ _ h0 S' outs hrun
+  exact ⟨pk, ak, h1, fun hf => hc hf c0⟩
+
+/-- [S] **the update operations never panic** on an object reached from `DefaultSolver::new` (well-formed
+input) by any history: each of `update_P / q / A / b / update_data`, in every argument form, returns
+(`Ok` or a `DataUpdateError`), so a history can only fail inside a `solve()`. -/
+theorem full_update_total {P : Csc α} {q : Array α} {A : Csc α} {b : Array α}
+    {cones : List (ConeT α)} {st : Solver.Settings α} {perm : Array Nat} (hin : InputOK P q A b cones)
+    (hn : 0 < P.n) (hperm : PermForU P q A b cones st perm) {S0 : Solver α}
+    (h : Solver.new P q A b cones st perm = .ok S0) {ops : List (UOp α)} {S : Solver α}
+    {outs : List (UOut α)} (hrun : Solver.runU st S0 ops = .ok (S, outs))
+    (pa : MatArg α) (va : VecArg α) (pa' : MatArg α) (va' : VecArg α) :
+    (∃ r, S.updateP pa = .ok r) ∧ (∃ r, S.updateQ va = .ok r) ∧ (∃ r, S.updateA pa = .ok r) ∧
+      (∃ r, S.updateB va = .ok r) ∧ (∃ r, S.updateData pa va pa' va' = .ok r) := by
+  have hb := base_of_new hin hn hperm h
+  obtain ⟨pk, ak, hI, _⟩ := full_update_invariant hin hn hperm h hrun
+  obtain ⟨S1, r1, _, e1, _⟩ := updateP_step hb hI pa
+  obtain ⟨S2, r2, e2, _⟩ := updateQ_step hb hI va
+  obtain ⟨S3, r3, _, e3, _⟩ := updateA_step hb hI pa
+  obtain ⟨S4, r4, e4, _⟩ := updateB_step hb hI va
+  obtain ⟨S5, r5, _, _, e5, _⟩ := updateData_step hb hI pa va pa' va'
+  exact ⟨⟨_, e1⟩, ⟨_, e2⟩, ⟨_, e3⟩, ⟨_, e4⟩, ⟨_, e5⟩⟩
+
+/-- [S] **update, then solve = solve of the rebuilt solver** (the property's statement on the
+whole-solver model, modulo the known finding `KF-C08-stale-equilibration`).  `S0` the object
+`DefaultSolver::new` builds on well-formed user input, no presolver recorded (otherwise every update is
+refused: `rejects_when_guarded`, `presolve_guard_iff`).  `ops` ANY finite history of `update_P / update_q
+/ update_A / update_b / update_data` — whole vectors, matrices with matching pattern, `(index,value)`
+partial updates — interleaved with `solve()` calls, that returned, in which every update was ACCEPTED or
+had all its arguments in whole forms (`RunFine`: a rejected whole-form update changes nothing).  Let `S'`
+be the updated object.  Then
+ * `S'.data` differs from the constructed data in the values of `P̂, q̂, Â, b̂` and the norm caches only:
+   the equilibration is the one `S0` computed — FROZEN (`DFrame`);
+ * the object `R` that `DefaultSolver::new` builds when handed this internal data as it is (cone
+   objects, `assemble_kkt_matrix`, `QDLDLFactorisation::new`, fresh variables / residuals / work vectors
+   / `info` / `solution` — NO new equilibration pass) exists, and `R.data = S'.data`;
+ * the next `solve()` on `S'` and `solve()` on `R` fail with the same error, or return the same
+   observable result (`SolveObs`): the same `solution` (status, `x, s, z`, objectives, iterations,
+   residuals), the same trajectory pass by pass (iterate, `μ, σ, α`, the nine `info` figures, verdicts,
+   `α_aff`), the same final iterate and `info` block.  For `Float` this is bit for bit.
+What distinguishes `R` from `DefaultSolver::new(final user data)` is ONLY the equilibration: by
+`data_eq_scaled_spec` / `fresh_data_same_form` (through `full_update_refines_state_model`) the internal
+data of both are `c·D·P·D, c·D·q, E·A·D, E·b` of the same final user data, `R` with the scalings computed
+for the ORIGINAL data, a fresh solver with scalings computed for the final data.  That the two reach the
+same verdict class along their different trajectories remains empirical (`KF-C08-stale-equilibration`).
+The norm caches: `full_rebuilt_norms_refreshed`. -/
+theorem full_update_then_solve_eq_rebuilt (hbeq : ((0 : α) == 0) = true) {P : Csc α} {q : Array α}
+    {A : Csc α} {b : Array α} {cones : List (ConeT α)} {st : Solver.Settings α} {perm : Array Nat}
+    (hin : InputOK P q A b cones) (hn : 0 < P.n) (hperm : PermForU P q A b cones st perm) {S0 : Solver α}
+    (h : Solver.new P q A b cones st perm = .ok S0) (hnp : S0.st.data.presolver = none)
+    {ops : List (UOp α)} {S' : Solver α} {outs : List (UOut α)}
+    (hrun : Solver.runU st S0 ops = .ok (S', outs)) (hfine : RunFine ops outs) :
+    DFrame S0.st.data S'.st.data ∧
+    ∃ R, Solver.rebuilt S'.st.data st perm (Unscale.Solution.new S'.st.data.n S'.st.data.m) = .ok R ∧
+      R.st.data = S'.st.data ∧ RelM SolveObs (S'.solve st) (R.solve st) :=
+  run_then_solve_eq_rebuilt hbeq (base_of_new hin hn hperm h) hnp hrun hfine
+
+/-- [S] **every history — rejected partial updates included.**  Without `RunFine`: the next `solve()` on
+the updated object is the solve of the object built from the FINAL data whose KKT system is assembled
+from the matrices `pk`, `ak` that the KKT copy was last synchronised with (`Solver.rebuiltWith`): the
+current `P̂`, `Â`, unless a REJECTED `(index,value)` update of `P` / `A` came after the last accepted
+one — then residuals, objective and the `τ`-direction use the new matrix, the factorisation the old. -/
+theorem full_update_then_solve_eq_rebuilt_any (hbeq : ((0 : α) == 0) = true) {P : Csc α} {q : Array α}
+    {A : Csc α} {b : Array α} {cones : List (ConeT α)} {st : Solver.Settings α} {perm : Array Nat}
+    (hin : InputOK P q A b cones) (hn : 0 < P.n) (hperm : PermForU P q A b cones st perm) {S0 : Solver α}
+    (h : Solver.new P q A b cones st perm = .ok S0) (hnp : S0.st.data.presolver = none)
+    {ops : List (UOp α)} {S' : Solver α} {outs : List (UOut α)}
+    (hrun : Solver.runU st S0 ops = .ok (S', outs)) :
+    ∃ pk ak, UInv st S0 S' pk ak ∧ (RunFine ops outs → Consistent S' pk ak) ∧
+      ∃ R, Solver.rebuiltWith S'.st.data (dataWith S'.st.data pk ak) st perm
+          (Unscale.Solution.new S'.st.data.n S'.st.data.m) = .ok R ∧
+        R.st.data = S'.st.data ∧ RelM SolveObs (S'.solve st) (R.solve st) :=
+  run_then_solve_eq_rebuiltWith hbeq (base_of_new hin hn hperm h) hnp hrun
+
+/-- [S] **the cached norms are refreshed.**  If each norm cache of the data `d` of the updated object is
+absent (every accepted `update_q` / `update_b` clears its cache) or holds what `get_normq` / `get_normb`
+recompute from `d`, then the rebuilt object may be taken WITHOUT caches — `solve()` then recomputes
+`‖q‖, ‖b‖` from the final `q̂, b̂` and the frozen `D⁻¹, E⁻¹, c` (over an ordered field these are the
+∞-norms of the final USER `q`, `b`: `norms_are_final_user_norms`) —: its `solve()` is the `solve()` of
+the object rebuilt with the caches, up to the caches carried in the final state. -/
+theorem full_rebuilt_norms_refreshed (d : ProblemData α) (st : Solver.Settings α) (perm : Array Nat)
+    (sol : Unscale.Solution α) {R : Solver α} (hR : Solver.rebuilt d st perm sol = .ok R)
+    (hq : d.normq = none ∨ ∃ v, Info.getNormq none d.q d.equilibration.dinv d.equilibration.c = .ok v ∧
+      d.normq = some v)
+    (hb : d.normb = none ∨ ∃ v, Info.getNormb none d.b d.equilibration.einv = .ok v ∧ d.normb = some v) :
+    ∃ R', Solver.rebuilt (d.setNorms none none) st perm sol = .ok R' ∧
+      R = R'.setNorms d.normq d.normb ∧
+      R.solve st = (R'.solve st).map (fun r => { r with S := r.S.setNorms d.normq d.normb }) :=
+  rebuilt_norms_refreshed d st perm sol hR (normsAgree_drop d hq hb)
+
+/-- [S] **the exact post-state of a REJECTED `update_P` / `update_A`, and the solve after it.**  `S`
+reached from `DefaultSolver::new` by a history whose updates were accepted or in whole form (so its KKT
+copy is synchronised); `update_P(arg)` (resp. `update_A`) returns `Err(BadFormat(e))`.  Then
+ * exactly `data.P` (resp. `data.A`) has changed, to what `update_matrix` left — unchanged for the
+   whole-matrix forms (`S' = S`), the pairs before the bad index applied for the `(index,value)` forms;
+ * NOTHING else has: `q, b`, the other matrix, equilibration, both norm caches, the KKT matrix, QDLDL's
+   permuted copy, iterate, work vectors — the KKT copy is STALE;
+ * the following `solve()` is the solve of the object built from the NEW data with the KKT system
+   assembled from the OLD data (`Solver.rebuiltWith S'.data S.data`): consistent with `data` in the
+   residuals, objective, `τ`-direction and termination test, with the stale copy in every factorisation.
+`update_data` is `update_P?; update_q?; update_A?; update_b?` (`rejection_table_update_data` through
+`full_update_refines_state_model`): the components before the rejected one are applied COMPLETELY
+(data, KKT copy, norm-cache flush), so after a rejected later component the KKT copy is stale only if
+that component itself is a rejected `(index,value)` matrix update — `full_update_invariant`. -/
+theorem full_rejected_update_post_state (hbeq : ((0 : α) == 0) = true) {P : Csc α} {q : Array α}
+    {A : Csc α} {b : Array α} {cones : List (ConeT α)} {st : Solver.Settings α} {perm : Array Nat}
+    (hin : InputOK P q A b cones) (hn : 0 < P.n) (hperm : PermForU P q A b cones st perm) {S0 : Solver α}
+    (h : Solver.new P q A b cones st perm = .ok S0) (hnp : S0.st.data.presolver = none)
+    {ops : List (UOp α)} {S : Solver α} {outs : List (UOut α)}
+    (hrun : Solver.runU st S0 ops = .ok (S, outs)) (hfine : RunFine ops outs) (arg : MatArg α)
+    (e : Csc.FormatError) :
+    (∀ S', S.updateP arg = .ok (S', .error (.badFormat e)) →
+      S' = S.setData { S.st.data with P := (updateMatrix arg S.st.data.P S.st.data.equilibration.d
+          S.st.data.equilibration.d (some S.st.data.equilibration.c)).1 } ∧
+      (arg.isWhole = true → S' = S) ∧
+      ∃ R, Solver.rebuiltWith S'.st.data S.st.data st perm
+          (Unscale.Solution.new S'.st.data.n S'.st.data.m) = .ok R ∧
+        R.st.data = S'.st.data ∧ RelM SolveObs (S'.solve st) (R.solve st)) ∧
+    (∀ S', S.updateA arg = .ok (S', .error (.badFormat e)) →
+      S' = S.setData { S.st.data with A := (updateMatrix arg S.st.data.A S.st.data.equilibration.e
+          S.st.data.equilibration.d none).1 } ∧
+      (arg.isWhole = true → S' = S) ∧
+      ∃ R, Solver.rebuiltWith S'.st.data S.st.data st perm
+          (Unscale.Solution.new S'.st.data.n S'.st.data.m) = .ok R ∧
+        R.st.data = S'.st.data ∧ RelM SolveObs (S'.solve st) (R.solve st)) := by
+  have hb := base_of_new hin hn hperm h
+  obtain ⟨pk, ak, hI, hc⟩ := full_update_invariant hin hn hperm h hrun
+  have hcons := hc hfine
+  refine ⟨fun S' hu => ?_, fun S' hu => ?_⟩
+  · obtain ⟨e1, e2, _, hR⟩ := rejected_updateP_then_solve hbeq hb hnp hI hcons hu
+    exact ⟨e1, e2, hR⟩
+  · obtain ⟨e1, e2, _, hR⟩ := rejected_updateA_then_solve hbeq hb hnp hI hcons hu
+    exact ⟨e1, e2, hR⟩
+
+end whole_solver
+
+section whole_solver_field
+open Clarabel.Solver
+variable [Field α] [LinearOrder α] [IsStrictOrderedRing α] [FloatLike α]
+
+/-- [F] **the data the rebuilt solver is built from is the frozen equilibration applied to the FINAL user
+data.**  For a block of update operations (every argument form, accepted or rejected) on any solver
+object whose scalings are nonzero, with `u'` the plain-overwrite result of the specification on the
+user-level data (`specRun`, the equilibration divided out): the internal data of the updated object are
+`P̂ = c·D·P'·D`, `q̂ = c·D·q'`, `Â = E·A'·D`, `b̂ = E·b'` of `u'` with the ORIGINAL `d, e, c` — entry for
+entry, same patterns (`data_eq_scaled_spec` through `full_update_refines_state_model`).  Together with
+`full_update_then_solve_eq_rebuilt`: the next `solve()` is the solve of `DefaultSolver::new` on the final
+user data in which the Ruiz pass is replaced by the stored scalings. -/
+theorem full_updated_data_is_frozen_scaling_of_final_user_data {st : Solver.Settings α}
+    (ops : List (UOp α)) (S S' : Solver α) (outs : List (UOut α)) (hu : ∀ op ∈ ops, op.isUpdate = true)
+    (hrun : Solver.runU st S ops = .ok (S', outs)) (hs : S.view.ScaleOK) :
+    let u' := (specRun (checkDataUpdateAllowed S.view) S.st.data.P S.st.data.A S.view.abs
+      (ops.map UOp.toOp)).1
+    S'.view.abs = u' ∧
+    S'.st.data.P = { S.st.data.P with nzval := (S.view.scaledValues u').P } ∧
+    S'.st.data.q = (S.view.scaledValues u').q ∧
+    S'.st.data.A = { S.st.data.A with nzval := (S.view.scaledValues u').A } ∧
+    S'.st.data.b = (S.view.scaledValues u').b ∧
+    S'.st.data.equilibration = S.st.data.equilibration := by
+  have href := runU_refines ops S S' outs hu hrun
+  have hd := data_eq_scaled_spec S.view hs (ops.map UOp.toOp)
+  have hf := run_frame S.view (ops.map UOp.toOp)
+  have e1 : (run S.view (ops.map UOp.toOp)).1 = S'.view := by rw [href]
+  rw [e1] at hd hf
+  obtain ⟨h1, h2, h3, h4, h5⟩ := hd
+  refine ⟨h1, h2, h3, h4, h5, ?_⟩
+  have hd' : S'.view.d = S.view.d := hf.d
+  have he' : S'.view.e = S.view.e := hf.e
+  have hc' : S'.view.c = S.view.c := hf.c
+  have hdi : S'.view.dinv = S.view.dinv := hf.dinv
+  have hei : S'.view.einv = S.view.einv := hf.einv
+  cases hq : S'.st.data.equilibration
+  cases hq0 : S.st.data.equilibration
+  simp only [Solver.view, State.ofSolver, hq, hq0] at hd' he' hc' hdi hei
+  subst hd' he' hc' hdi hei
+  rfl
+
+end whole_solver_field
+
+/-! non-vacuity of the round-7 theorems: the example problem of `Lemmas/SolverModelExample.lean`
+(`P = 0` 1×1, `A = [1]`, `b = [1]`, one nonnegative cone, scalar type `Int`) -/
+section examples_round7
+open Clarabel.Solver Clarabel.Solver.Example
+attribute [local instance] intFloatLike
+
+/-- the hypotheses of `full_kkt_inputs_from_user_input`, `full_invariants_from_user_input`,
+`full_update_invariant`, `full_update_total`, `full_update_then_solve_eq_rebuilt(_any)`,
+`full_rejected_update_post_state` hold jointly: well-formed input on which `new` succeeds, no presolver,
+and a history (`update_q`, an empty `update_P`, an `update_data` whose LAST component is rejected — all
+in whole forms) that returns and satisfies `RunFine` -/
+example : InputOK P #[1] A #[1] ([.nonneg 1] : List (ConeT Int)) ∧ 0 < P.n ∧
+    PermForU P #[1] A #[1] ([.nonneg 1] : List (ConeT Int)) (st 3) #[0, 1] ∧ (((0 : Int) == 0) = true) ∧
+    ∃ S0, newSolver 3 = .ok S0 ∧ S0.st.data.presolver = none ∧
+      ∃ S' outs, Solver.runU (st 3) S0 exOps = .ok (S', outs) ∧ RunFine exOps outs ∧
+        ∀ op ∈ exOps, op.isUpdate = true := by
+  obtain ⟨S0, hS0⟩ := uxNew_ok
+  obtain ⟨S', outs, hrun, hfine⟩ := exRun_ok hS0
+  refine ⟨uxInputOK, by decide, uxPermFor, by decide, S0, hS0, exNoPresolver hS0, S', outs, hrun, hfine, ?_⟩
+  intro op hop
+  simp only [exOps, List.mem_cons, List.mem_nil_iff, or_false] at hop
+  rcases hop with rfl | rfl | rfl <;> rfl
+
+/-- a solver object over `ℚ` for the field-level example: `P̂ = [8]`, `Â = [6]`, `q̂ = [4]`, `b̂ = [3]`,
+`d = 2`, `e = 3`, `c = 2` (every other component arbitrary) -/
+def exSolverQ : Solver ℚ :=
+  { st := ⟨{ P := ⟨1, 1, #[0, 1], #[0], #[8]⟩, q := #[4], A := ⟨1, 1, #[0, 1], #[0], #[6]⟩, b := #[3],
+             cones := [.nonneg 1], n := 1, m := 1,
+             equilibration := { d := #[2], dinv := #[1/2], e := #[3], einv := #[1/3], c := 2 },
+             normq := none, normb := none, presolver := none },
+           default, default,
+           ⟨⟨1, 1, 0, #[], #[], #[], #[], default, #[], #[], default,
+              { perm := #[], iperm := #[], L := default, D := #[], Dinv := #[], etree := #[], Lnz := #[],
+                triuA := default, AtoPAPt := #[], rp := { Dsigns := #[], enable := false, eps := 0, delta := 0 },
+                positiveInertia := 0, regularizeCount := 0, isSymbolic := false }, 0⟩,
+             #[], #[], #[], #[], #[], #[], #[]⟩, [], default, default, default, default, 0, 0, 0⟩,
+    solution := default }
+
+attribute [local instance] feFloatLikeRat in
+/-- `full_updated_data_is_frozen_scaling_of_final_user_data`: the hypotheses hold for `exSolverQ` and the
+block `[update_q([7])]` (the update operations that do not touch the KKT copy are total on data that
+passes the index guard); the conclusion says `q̂' = c·d·7 = 28` -/
+example : exSolverQ.view.ScaleOK ∧ ∃ S' outs st,
+    Solver.runU st exSolverQ [.updateQ (.slice #[7])] = .ok (S', outs) ∧
+    ∀ op ∈ ([.updateQ (.slice #[7])] : List (UOp ℚ)), op.isUpdate = true := by
+  refine ⟨⟨by show (2 : ℚ) ≠ 0; norm_num, ?_, ?_, ?_, ?_⟩, ?_⟩
+  · intro k hk
+    have : k = 0 := by have : k < 1 := hk; omega
+    subst this
+    exact ⟨by show (2 : ℚ) ≠ 0; norm_num, by show (2 : ℚ) ≠ 0; norm_num⟩
+  · intro k hk
+    have : k = 0 := by have : k < 1 := hk; omega
+    subst this
+    exact ⟨by show (3 : ℚ) ≠ 0; norm_num, by show (2 : ℚ) ≠ 0; norm_num⟩
+  · intro k hk
+    have : k = 0 := by have : k < 1 := hk; omega
+    subst this
+    show (2 : ℚ) ≠ 0; norm_num
+  · intro k hk
+    have : k = 0 := by have : k < 1 := hk; omega
+    subst this
+    show (3 : ℚ) ≠ 0; norm_num
+  · have hwf : dataWf exSolverQ.st.data = true := by decide +kernel
+    obtain ⟨S', r, h⟩ := updateQ_total hwf (.slice #[7])
+    refine ⟨S', [.res r], default, ?_, ?_⟩
+    · exact runU_cons_ok (by rw [stepU_updateQ, h]; rfl) rfl
+    · intro op hop
+      simp only [List.mem_cons, List.mem_nil_iff, or_false] at hop
+      subst hop
+      rfl
+
+/-- `full_rebuilt_norms_refreshed`: after an accepted `update_q` and `update_b` both caches are absent;
+in general the hypothesis is the whole-solver form of `NormCacheOK` -/
+example (d : ProblemData Int) (hq : d.normq = none) (hb : d.normb = none) :
+    (d.normq = none ∨ ∃ v, Info.getNormq none d.q d.equilibration.dinv d.equilibration.c = .ok v ∧
+      d.normq = some v) ∧
+    (d.normb = none ∨ ∃ v, Info.getNormb none d.b d.equilibration.einv = .ok v ∧ d.normb = some v) :=
+  ⟨Or.inl hq, Or.inl hb⟩
+
+end examples_round7
 
 end Clarabel.C08
